@@ -450,11 +450,11 @@ class Check:
             v = self.violations[0]
             path = os.path.join(VERIF, "replays", "%s-%d.json" % (self.id, int(time.time() * 1000) % 10**9))
             with open(path, "w") as f:
-                json.dump(dict(property=self.id, kind="input", seed=self.seed, clause=v["clause"],
+                json.dump(jsonable(dict(property=self.id, kind="input", seed=self.seed, clause=v["clause"],
                                case=v["case"], expected=v["expected"], observed=v["observed"],
                                broken=self.broken, all_violations=len(self.violations),
                                more=[dict(clause=x['clause'], case=x['case'], observed=x['observed']) for x in self.violations[1:12]],
-                               how_to_rerun=v.get("how_to_rerun") or "./check %s --replay %s" % (self.id, path)),
+                               how_to_rerun=v.get("how_to_rerun") or "./check %s --replay %s" % (self.id, path))),
                           f, indent=1, default=str)
             lines.append("VIOLATION property=%s replay=%s" % (self.id, path))
             rc = 1
@@ -505,6 +505,19 @@ class Check:
         os.makedirs(os.path.join(VERIF, "evidence"), exist_ok=True)
         with open(os.path.join(VERIF, "evidence", self.id + ".json"), "w") as f:
             json.dump(ev, f, indent=1, default=str)
+
+
+def jsonable(o):
+    """replay files must be writable whatever the harness put into a case"""
+    if isinstance(o, dict):
+        return {(k if isinstance(k, (str, int, float, bool)) or k is None else repr(k)): jsonable(v) for k, v in o.items()}
+    if isinstance(o, (list, tuple, set, frozenset)):
+        return [jsonable(x) for x in o]
+    if isinstance(o, (str, int, float, bool)) or o is None:
+        return o
+    if isinstance(o, bytes):
+        return o.decode("utf-8", errors="replace")
+    return repr(o)
 
 
 def extract_coq_error(log):
